@@ -1216,8 +1216,24 @@ def ints(out, op):
     return [BAD]
 
 
+_CSIMS = None
+
+
+def select_simulators(impl):
+    """'c': the C simulators (built from the tree by cbuild.preload); 'py': the pure Python ones the macros fall back to
+    when the C extension is not available"""
+    global _CSIMS
+    from skoolkit import skoolmacro
+    if _CSIMS is None:
+        _CSIMS = (skoolmacro.CSimulator, skoolmacro.CCMIOSimulator)
+        if None in _CSIMS:
+            raise MachineryError('C simulators not loaded')
+    skoolmacro.CSimulator, skoolmacro.CCMIOSimulator = _CSIMS if impl == 'c' else (None, None)
+
+
 def run_tools(case, text, place, d, do_asm, do_html):
     from skoolkit import skool2asm, skool2html
+    select_simulators(case.get('impl', 'c'))
     shutil.rmtree(d, ignore_errors=True)
     os.makedirs(d)
     path = os.path.join(d, 'p.skool')
@@ -1323,7 +1339,8 @@ def make_case(rng, key, kind):
     case = {'key': key, 'kind': kind, 'is128': 1 if is128 else 0, 'p7': p7, 'fill': fill, 'prog': prog, 'handlers': handlers,
             'ov': [[a, b] for a, b in sorted(ov.items())], 'ins': [[a, len(bs)] for a, t, bs in prog['ins']],
             'ops': s.ops, 'asm': 0 if has_audio else 1, 'html': 1, 'exc': '', 'text': text, 'place': list(place),
-            'classes': sorted(s.classes)}
+            'impl': 'py' if r.random() < .3 else 'c', 'classes': sorted(s.classes)}
+    case['classes'].append('impl:' + case['impl'])
     return case
 
 
